@@ -30,7 +30,7 @@ def cases(tier, seed):
     reps = 1 if tier == "quick" else 60
     for _ in range(reps):
         for kind, n, (lb, db) in itertools.product(["gauss", "fixed", "fixed+learn"], [1, 2, 5], BPAIRS):
-            for call_noise in ([False] if kind == "gauss" else [False, True, "tiny"]):
+            for call_noise in [False, True, "tiny"]:  # (homoskedastic noise model: 'If a "noise" kwarg is provided, this noise is used directly')
                 yield {"kind": kind, "n": n, "lbatch": lb, "dbatch": db, "call_noise": call_noise, "seed": rnd.randrange(10**6)}
         # a function distribution whose size differs from the stored fixed noise and no call-time noise: documented as a
         # no-op for the fixed part (warning); a learned additional noise is still added
@@ -59,6 +59,8 @@ def cases(tier, seed):
         for members in (["fixed", "fixed"], ["fixed", "fixed+learn", "fixed"]):
             for n_ in (2, 3, 4):  # (incl. as many points as members)
                 yield {"kind": "list", "n": n_, "call_noise": "stacked", "members": members, "seed": rnd.randrange(10**6)}
+        for members, cn in itertools.product((["fixed", "fixed"], ["fixed", "fixed+learn", "fixed"], ["gauss", "fixed", "gauss"]), (True, False)):
+            yield {"kind": "list", "n": 3, "call_noise": cn, "same_object": True, "members": members, "seed": rnd.randrange(10**6)}
         for members in (["fixed", "fixed", "fixed"], ["fixed", "fixed+learn", "fixed"]):
             for none_at in ([1], [0], [2], [0, 2]):
                 yield {"kind": "list", "n": 3, "call_noise": True, "none_at": none_at, "members": members, "seed": rnd.randrange(10**6)}
@@ -139,6 +141,8 @@ def _R_single(lik, kind, fixed, call, shape):
     """documented noise diagonal for a function distribution whose mean has `shape`"""
     import torch
 
+    if kind == "gauss" and call is not None:
+        return call.expand(*torch.broadcast_shapes(call.shape[:-1], shape[:-1]), shape[-1])
     if kind == "gauss":
         r = lik.noise.detach().expand(*torch.broadcast_shapes(lik.noise.shape[:-1], shape[:-1]), 1).expand(*torch.broadcast_shapes(lik.noise.shape[:-1], shape[:-1]), shape[-1])
         return r
@@ -258,7 +262,7 @@ def _single(case, ctx, g):
     add = out.covariance_matrix - C
     Rm = torch.diag_embed(r)
     ctx.close("marginal_adds_R", add, Rm.expand(add.shape), (1e-10, 1e-10) if case["call_noise"] == "tiny" else "direct", cls=cls)
-    if case["call_noise"] == "tiny" and kind == "fixed":
+    if case["call_noise"] == "tiny" and kind in ("fixed", "gauss"):
         # zero call-time noise: expected_log_prob / log_marginal / forward divide by it; only the marginal is decided here
         ctx.cell({k: v_ for k, v_ in case.items() if k != "seed"}, nontrivial=n > 1)
         return
@@ -404,8 +408,11 @@ def _list(case, ctx, g):
 
     n = case["n"]
     liks, fixeds, ds, calls = [], [], [], []
-    for kind in case["members"]:
-        lik, fixed = _make_lik(kind, g, [], n)
+    for j_, kind in enumerate(case["members"]):
+        if case.get("same_object") and j_ == len(case["members"]) - 1:
+            lik, fixed = liks[0], fixeds[0]  # ONE likelihood object fills the first and the last slot
+        else:
+            lik, fixed = _make_lik(kind, g, [], n)
         liks.append(lik)
         fixeds.append(fixed)
         ds.append(MVN(util.randn(g, n), _spd(g, n)))
